@@ -30,3 +30,16 @@ void c09_instantiate(const draco::Mesh &m) {
 }
 
 }  // namespace verif_control
+
+// ---- OPTFREE control: a count function that re-derives an encoder decision from the options ----
+#include "draco/compression/mesh/mesh_encoder.h"
+namespace verif_control {
+class c09_OptCounter : public draco::MeshEncoder {
+ public:
+  void c09_optfree_bad() {
+    size_t n = mesh()->num_points();
+    if (options()->GetGlobalBool("split_mesh_on_seams", false) || options()->GetSpeed() >= 6) n /= 2;
+    set_num_encoded_points(n);
+  }
+};
+}  // namespace verif_control
